@@ -39,19 +39,24 @@ theorem close_cancels_keepalive (connErr : Bool) (oracle : List Bool) :
 
 /-- **close_silences_keepalive** (the property's last sentence, for a closed session).  `Close`,
 called at `tc` while the loop has seen the outcomes `scs`, cancels keep-alive on every path; the
-loop then sends no ping from `tc` on, its goroutine returns by `tc + I/2`, and nothing — ping, log
-record, `Close` — happens after that return. -/
+loop then sends no ping from `tc` on, its goroutine returns at `tc` or when the ping then in flight is
+over — by `tc + I/2` when that ping honours its context —, and nothing — ping, log record, `Close` —
+happens after that return. -/
 theorem close_silences_keepalive (connErr : Bool) (oracle : List Bool) (I : Nat) (t0 : Int)
-    (scs : List Script) (tc : Nat) (htc : 0 < tc) :
+    (scs : List Script) (tc : Nat) :
     (execClose connErr clientClose false oracle = true ∧ execClose connErr serverClose false oracle = true) ∧
     (runCancel I t0 scs tc).status ≠ .running ∧
     (∀ p ∈ (runCancel I t0 scs tc).pings, p < tc) ∧
-    endAt I t0 scs tc ≤ tc + I / 2 ∧
+    ((∀ sc ∈ scs, sc.honours = true) → endAt I t0 scs tc ≤ tc + I / 2) ∧
+    (endAt I t0 scs tc = tc ∨
+      endAt I t0 scs tc = (run I t0 (scs.take (pingsBefore I tc scs))).free) ∧
     (∀ p ∈ (runCancel I t0 scs tc).pings, p ≤ endAt I t0 scs tc) ∧
     (∀ w ∈ warnsCancel I t0 scs tc, w ≤ endAt I t0 scs tc) ∧
     (∀ c, (runCancel I t0 scs tc).closeAt = some c → c = endAt I t0 scs tc) :=
-  ⟨close_cancels_keepalive connErr oracle, ((silent_stop I t0 scs).2 tc).1, cancel_stops_pings I t0 scs tc htc,
-    (cancel_ends_promptly I t0 scs tc htc).1, (nothing_after_end I t0 scs tc).1,
+  ⟨close_cancels_keepalive connErr oracle, ((silent_stop I t0 scs).2 tc).1, cancel_stops_pings I t0 scs tc,
+    fun hh => (cancel_ends_promptly I t0 scs tc).1
+      (fun sc hsc => hh sc (List.mem_of_mem_take (List.mem_of_getElem? hsc))),
+    (cancel_ends_promptly I t0 scs tc).2.2, (nothing_after_end I t0 scs tc).1,
     (nothing_after_end I t0 scs tc).2.1, (nothing_after_end I t0 scs tc).2.2⟩
 
 /-! ## Non-vacuity -/
